@@ -304,9 +304,6 @@ def build_kw(cls, kw):
     return out
 
 
-_colsq = None
-
-
 def canon_sql(cls, text):
     t = cls.sqlmeta.table
     names = ['id'] + [DBN[c] for c in COLS]
@@ -378,7 +375,6 @@ def run_impl(cls, q):
             return text, 'rows' + ''.join(' %d' % i for i in ids), ids
         if t[0] in ('one', 'one0'):
             text = canon_sql(cls, str(sel))
-            marker = object()
             obj = sel.getOne(None) if t[0] == 'one0' else sel.getOne()
             if t[0] == 'one0' and obj is None:
                 return text, 'default', None
